@@ -24,7 +24,7 @@ def le(v, n):
     if hasattr(v, "var") and n in (1, 2, 4, 8):
         from vlib import chplugin
         if chplugin._sym_int_pack is not None:
-            r = chplugin._sym_int_pack("<" + {1: "B", 2: "H", 4: "I", 8: "Q"}[n], v)
+            r = chplugin._sym_int_pack("<" + {1: "B", 2: "H", 4: "I", 8: "Q"}[n], v % (1 << (8 * n)))     # wraps like the arithmetic form below
             if r is not None:
                 return [r[i] for i in range(n)]
     return [(v // (1 << (8 * i))) % 256 for i in range(n)]
